@@ -42,7 +42,8 @@ def norm(v):
         if t is pd.NaT:
             return None
         if t.tzinfo is not None:
-            t = t.tz_convert("UTC").tz_localize(None)
+            # aware and naive instants are different families: comparing them is ill-defined and not judged
+            return ("tsz", int(t.tz_convert("UTC").tz_localize(None).as_unit("ns").value))
         return ("ts", int(t.as_unit("ns").value))
     if isinstance(v, (pd.Timedelta, np.timedelta64, datetime.timedelta)):
         t = pd.Timedelta(v)
@@ -176,17 +177,22 @@ def frame_columns(df):
     return cols
 
 
-def adapt_program(program, f32cols):
+def adapt_program(program, f32cols, ordered_cats=()):
     """Constants compared with a float32 column are compared at float32 precision (numpy/pandas weak-scalar semantics)."""
-    if not f32cols:
+    if not f32cols and not ordered_cats:
         return program
 
     def a(c, op, v):
+        if c in ordered_cats and op in ("<", "<=", ">", ">="):
+            # pandas compares an ordered categorical in category order, the file statistics in value order: not judged
+            raise Unorderable("ordering operator on an ordered categorical")
         if c not in f32cols:
             return (c, op, v)
         def r(x):
             if isinstance(x, (float, np.floating)) and not isinstance(x, np.float32):
-                return float(np.float32(x))
+                if float(np.float32(x)) != float(x) and not math.isnan(float(x)):
+                    # == compares at float32 precision but isin() at float64: not judged
+                    raise Unorderable("constant not representable in float32")
             return x
         return (c, op, [r(x) for x in v] if isinstance(v, list) else r(v))
     if program and isinstance(program[0][0], str):
